@@ -572,7 +572,7 @@ func run(c *common.Ctx) *common.Result {
 				return true
 			case sched.StepLimit:
 				res.Cap("step limit hit in " + sc.String())
-				return true
+				return false
 			case sched.Stuck:
 				res.Cap("a thread ran without reaching a schedule point: " + sc.String())
 				return false
